@@ -304,9 +304,14 @@ def run(repo: Repo, chk: Check) -> None:
     # ---- 4 one relation everywhere ------------------------------------------------------------------------------
     chk.set_clause('C03.4')
     nsorted = 0
+    audited = {}
     for modname in (f'{T}.set', f'{T}.map', f'{T}.big_map'):
-        mi = repo.module(modname)
-        for fi in repo.iter_functions(modname + '.'):
+        for fi0 in repo.iter_functions(modname + '.'):
+            for fi in repo.with_fresh_callees(fi0):  # ... and the helpers a later refactoring moved the sorting into, wherever they live
+                audited.setdefault(fi.qualname, fi)
+    for fi in audited.values():
+        mi = fi.module
+        if True:
             for c in [n for n in ast.walk(fi.node) if isinstance(n, ast.Call)]:
                 d = dotted(c.func)
                 if d == 'sorted':
